@@ -5,6 +5,7 @@ func init() {
 		ID:    "C15",
 		Title: "One loaded Template and the string API are safe for concurrent use",
 		Rules: []string{
+			"R-SHARED-RW: no package-level variable (atomic or not) is both written and read on paths from the render entry points: a concurrent call could change it between a render's write and its read",
 			"R-SHARED(race): no store/map update/in-place append whose address derives from a package-level variable, the *Template receiver or the caller's data is reachable from the four render entry points (provenance over SSA with per-function write summaries to a fixpoint over the VTA call graph)",
 		},
 		Decided:     "TODO",
@@ -12,6 +13,9 @@ func init() {
 		Assumptions: trustedBase,
 		Run: func(m *Model, s *Sink) {
 			m.RunSharedWrites(s, "R-SHARED", m.Roots().Render, "race")
+			// synchronised or atomic state is no data race, but a render that reads package-level state which renders
+			// (or the string API) also write gives results that depend on how concurrent calls interleave
+			m.RunSharedWrites(s, "R-SHARED-RW", m.Roots().Render, "history")
 		},
 	})
 	register(&PropInfo{
